@@ -25,6 +25,8 @@ struct xm {
 	int nextid;
 	char out[1024];		/* what the command prints (lines joined, each with newline) */
 	int unsure_cur;		/* the reference leaves the current line open after this command */
+	char lastpat[16];	/* the last non-empty pattern used in an address; an empty pattern reuses it */
+	int has_lastpat;
 	int modified;		/* buffer changed since it was loaded: 0 no, 1 yes, 2 not known to the reference
 				 * (an accepted text command that left the lines as they were may or may not count) */
 };
@@ -165,16 +167,20 @@ static int xm_addr(const struct xm *m, const struct xaddr *a, int cur)
 			return XA_FAIL;
 		break;
 	case XA_FWD:
+		if (!a->pat[0] && !m->has_lastpat)
+			return XA_FAIL;		/* no previous pattern */
 		for (i = cur + 1; i < m->n; i++)
-			if (strstr(m->ln[i].s, a->pat))
+			if (strstr(m->ln[i].s, a->pat[0] ? a->pat : m->lastpat))
 				break;
 		if (i >= m->n)
 			return XA_FAIL;
 		n = i;
 		break;
 	case XA_BWD:
+		if (!a->pat[0] && !m->has_lastpat)
+			return XA_FAIL;
 		for (i = cur - 1; i >= 0; i--)
-			if (i < m->n && strstr(m->ln[i].s, a->pat))
+			if (i < m->n && strstr(m->ln[i].s, a->pat[0] ? a->pat : m->lastpat))
 				break;
 		if (i < 0)
 			return XA_FAIL;
@@ -184,6 +190,16 @@ static int xm_addr(const struct xm *m, const struct xaddr *a, int cur)
 	if (a->has_off)
 		n += a->off;
 	return n;
+}
+
+/* resolve an address as part of a command: a non-empty pattern becomes the remembered one (also when it is not found) */
+static int xm_addr_rec(struct xm *m, const struct xaddr *a, int cur)
+{
+	if ((a->type == XA_FWD || a->type == XA_BWD) && a->pat[0]) {
+		snprintf(m->lastpat, sizeof(m->lastpat), "%s", a->pat);
+		m->has_lastpat = 1;
+	}
+	return xm_addr(m, a, cur);
 }
 
 static int xreg_index(int reg)
@@ -296,7 +312,7 @@ static int refex_exec_core(struct xm *m, const struct xcmd *c, const char *(*fil
 			e = m->n - 1;
 		}
 	} else {
-		b = xm_addr(m, &c->a1, cur);
+		b = xm_addr_rec(m, &c->a1, cur);
 		if (b == XA_FAIL)
 			return 1;
 		e = b;
@@ -309,7 +325,7 @@ static int refex_exec_core(struct xm *m, const struct xcmd *c, const char *(*fil
 				m->cur = b;	/* ';' makes the first address the current line, and it stays so */
 				cur = b;
 			}
-			e = xm_addr(m, &c->a2, c2);
+			e = xm_addr_rec(m, &c->a2, c2);
 			if (e == XA_FAIL)
 				return 1;
 		}
